@@ -281,6 +281,15 @@ impl BytecodeBuilder {
     ///
     /// NOTE: All Op variants with a JumpTarget field must be listed here.
     /// We explicitly list non-jump variants to get compile errors when new jump ops are added.
+    /// Set the number of scopes a Break/Continue instruction leaves behind
+    pub fn patch_jump_scopes(&mut self, placeholder: JumpPlaceholder, count: u8) {
+        if let Some(Op::Break { scopes, .. } | Op::Continue { scopes, .. }) =
+            self.code.get_mut(placeholder.instruction_index)
+        {
+            *scopes = count;
+        }
+    }
+
     pub fn patch_jump_to(&mut self, placeholder: JumpPlaceholder, target: JumpTarget) {
         if let Some(op) = self.code.get_mut(placeholder.instruction_index) {
             match op {
